@@ -11,6 +11,7 @@ import NibabelModel.Lemmas.C16_Lazy
 import NibabelModel.Lemmas.C16_Aff
 import NibabelModel.Lemmas.C16_ByteOrder
 import NibabelModel.Lemmas.C16_Pending
+import NibabelModel.Lemmas.C16_HdrParse
 /-! Props/C16 — property theorems for C16 (tractograms round-trip through TRK and TCK in RAS+ mm).
     Statements about the TCK header arithmetic are about the definitions REGENERATED from the source
     (`Gen.*`, Generated/C16.lean). -/
@@ -87,7 +88,11 @@ example : ∀ s ∈ [[((1 : Nat), (2 : Nat), (3 : Nat))], [(0x7FC00000, 5, 6)]],
     * the header occupies exactly that many bytes, so the reader, seeking to the announced
       offset, starts exactly at the first data byte (it finds whole triples, no ragged tail), and
     * it yields exactly the non-empty streamlines that were saved, in order, bit for bit, and
-      ends without error. -/
+      ends without error.
+    SCOPE (audit): "announced" here is `tckAnnounced` = the digits at the position where `save` put them;
+    it is NOT the real header parser, which reads lines and can be redirected by an `END` line or an
+    earlier `file:` entry inside `out` (`tck_header_text_counterexample`).  The statement through the
+    modelled line parser, with the hypothesis on the header text, is `tck_file_roundtrip_parsed`. -/
 theorem tck_file_roundtrip (out : List Nat) (c : Nat) (hc : 0 < c) (sls : List (List Triple))
     (h32 : ∀ s ∈ sls, ∀ t ∈ s, Is32 t) (hnan : ∀ s ∈ sls, ∀ t ∈ s, isDelim t = false) :
     tckAnnounced out.length (tckWriteFile out sls) = some (Gen.tckHdrOffset out.length) ∧
@@ -126,6 +131,49 @@ example : (∀ s ∈ [[((1 : Nat), (2 : Nat), (3 : Nat))]], ∀ t ∈ s, Is32 t)
   simp at hs; subst hs
   simp at ht; subst ht
   exact ⟨by decide, by decide, by decide⟩
+
+/-! ### TCK: the file round trip through the REAL (line-oriented) header parser -/
+
+/-- **TCK round trip at file level with the header parser of `_read_header` modelled** (audit item: the
+    earlier `tck_file_roundtrip` quantifies over every header text but finds the offset by looking at
+    the digits after the `file: . ` that `save` wrote; the real reader parses LINES).  For every header
+    text of the writer's shape — magic, one separator byte, then lines without newline each of which is
+    blank or a `key: value` line that is not `END` and whose key is not `file` (`KVLine`) — of ANY
+    length, every buffer size and every tractogram of 32-bit words without all-NaN point: the line
+    parser (`tckHeaderOffset`: split at `\n`, strip, skip blanks, stop at `END`, `split(':', 1)`, values of a
+    repeated key joined, `int(hdr['file'].split()[1])`) returns exactly the regenerated
+    `Gen.tckHdrOffset`, and the reader started there yields the saved non-empty streamlines, in order,
+    bit for bit, without error. -/
+theorem tck_file_roundtrip_parsed (lines : List (List Nat)) (hne : lines ≠ []) (hl : ∀ l ∈ lines, KVLine l)
+    (sep c : Nat) (hc : 0 < c) (sls : List (List Triple))
+    (h32 : ∀ s ∈ sls, ∀ t ∈ s, Is32 t) (hnan : ∀ s ∈ sls, ∀ t ∈ s, isDelim t = false) :
+    ∃ off, tckHeaderOffset (tckWriteFile (tckMagic ++ sep :: joinNl lines) sls) = .ok off ∧
+      off = Gen.tckHdrOffset (tckMagic ++ sep :: joinNl lines).length ∧
+      (tckReadFile c off (tckWriteFile (tckMagic ++ sep :: joinNl lines) sls)).items.map (·.1) =
+        sls.filter (fun s => !s.isEmpty) ∧
+      (tckReadFile c off (tckWriteFile (tckMagic ++ sep :: joinNl lines) sls)).err = none := by
+  have hp := tckHeaderOffset_written lines hne hl sep sls
+  have hr := tck_file_roundtrip (tckMagic ++ sep :: joinNl lines) c hc sls h32 hnan
+  refine ⟨Gen.tckHdrOffset (tckMagic ++ sep :: joinNl lines).length, ?_, rfl, hr.2.2.1, hr.2.2.2⟩
+  rw [Gen.tckHdrOffset_eq_model]
+  exact hp
+
+/-- non-vacuity: the two lines every TCK header has -/
+example : KVLine [99, 111, 117, 110, 116, 58, 32, 48] ∧ KVLine [] := by
+  refine ⟨⟨by decide, Or.inr ⟨by decide +kernel, [99, 111, 117, 110, 116], [32, 48], by decide +kernel, by decide +kernel⟩⟩,
+    ⟨by simp, Or.inl (by decide)⟩⟩
+
+/-- why the hypothesis on the header text is needed (the over-quantification the audit found): a header
+    text containing the line `END`, or an earlier `file: . 7` entry, makes the real parser return 18 resp. 7
+    while `_write_header` announces 33 resp. 40 — `tck_file_roundtrip`'s "digits after the written
+    `file: . `" would not see this. -/
+theorem tck_header_text_counterexample :
+    (tckHeaderOffset (tckWriteFile (tckMagic ++ [10, 69, 78, 68]) [])).toOption = some 18 ∧
+    Gen.tckHdrOffset (tckMagic ++ [10, 69, 78, 68]).length = 33 ∧
+    (tckHeaderOffset (tckWriteFile (tckMagic ++ [10, 102, 105, 108, 101, 58, 32, 46, 32, 55]) [])).toOption = some 7 ∧
+    Gen.tckHdrOffset (tckMagic ++ [10, 102, 105, 108, 101, 58, 32, 46, 32, 55]).length = 40 := by
+  refine ⟨by decide +kernel, by decide +kernel, by decide +kernel, by decide +kernel⟩
+
 
 /-! ### TRK names -/
 
